@@ -1206,7 +1206,8 @@ def stats(cases, obs):
         'random_keep': 0, 'random_drop': 0, 'reservoir_evictions': 0, 'dumps': 0, 'aggregates_ok': 0, 'aggregate_errors': {},
         'agg_total_kinds': {'num': 0, 'pcts': 0, 'work': 0}, 'stale_reservoirs_at_aggregate': 0,
         'multi_source_percentile_keys': 0, 'via_varzmetric_object': 0, 'via_receiver': 0, 'max_equal_source_updates': 0,
-        'e2e_calls': 0, 'pct_index_errors': 0, 'pct_exact_index': 0, 'pct_interpolated': 0, 'downsample_branches':
+        'e2e_calls': 0, 'e2e_calls_issued_before_open_completed': 0, 'updates_via_long_lived_objects': 0,
+        'gauge_resets_of_an_earlier_value_after_a_change': 0, 'pct_index_errors': 0, 'pct_exact_index': 0, 'pct_interpolated': 0, 'downsample_branches':
         {'target0': 0, 'all': 0, 'skip': 0}, 'mixed_kind_histories': 0}
   for c, o in zip(cases, obs):
     if not isinstance(o, dict) or 'harness_exc' in o:
@@ -1215,10 +1216,21 @@ def stats(cases, obs):
     if k == 'run':
       per = {}
       kinds = {}
+      lastobj, lastval = {}, {}
       for op, s in zip(c['ops'], o['steps']):
         if op[0] in ('L', 'C'):
           st['updates'] += 1
           st['via_varzmetric_object' if op[0] == 'C' else 'via_receiver'] += 1
+          if op[0] == 'C' and int(op[6]) >= 2:
+            st['updates_via_long_lived_objects'] += 1
+            if kind_of_type(op[1]) == 'set':
+              ok_ = (op[1], op[2], tuple(op[3]), int(op[6]))
+              sk_ = (op[2], tuple(op[3]))
+              if lastobj.get(ok_) == op[4] and lastval.get(sk_) != op[4]:
+                st['gauge_resets_of_an_earlier_value_after_a_change'] += 1
+              lastobj[ok_] = op[4]
+          if (op[1] if op[0] == 'L' else kind_of_type(op[1])) == 'set':
+            lastval[(op[2], tuple(op[3]))] = op[4]
           kinds.setdefault(op[2], set()).add(op[1] if op[0] == 'L' else kind_of_type(op[1]))
           key = (op[2], tuple(op[3]))
           per[key] = per.get(key, 0) + 1
@@ -1253,6 +1265,13 @@ def stats(cases, obs):
         st['mixed_kind_histories'] += 1
     elif k == 'e2e':
       st['e2e_calls'] += len(c['ops'])
+      seen_d = set()
+      for what, idx in o.get('events', []):
+        if what == 'd':
+          seen_d.add(idx)
+      oa = c.get('open_after')
+      if oa is not None:
+        st['e2e_calls_issued_before_open_completed'] += min(oa, len(c['ops']))
     elif k == 'pct':
       n = len(c['values'])
       for p, x in zip(c['ps'], o['out']):
